@@ -24,6 +24,16 @@ Call histories (LocalMaxCalls.tla: Stand, NoAlias): every sequence of 3 (thoroug
         without smoothing - over three frames (two of EQUAL nnz) and two scans of equal frame sizes, on several seeded
         concrete pools; every array handed out is kept and ALL of them are re-judged against the definitions after
         every later call, np.shares_memory between them (and with the inputs) must be false (harness/c13_calls.py).
+Scan arguments x value classes (LocalMaxScan.tla: AllLabelled, MapCovariant): SparseScan.lmlabel as a function of its
+        arguments and of the SIGN / ZERO class of the stored values.  TLC enumerates every frame of <= 3 stored pixels on
+        2x3 (thorough: also 3x3, <= 4 pixels, 4 levels) under order preserving maps a v - b of the grey levels (v - 2, v - 3,
+        v - 4, 2v - 4, 3v - 5: negative values, an exact 0, positive values) and emits signal and labels for smooth x
+        countall; the scans <<frame, no pixels, mirrored frame>> are written with intensity dtypes float32, int32, float64,
+        int16, int64, uint16 and labelled with the DEFAULT call, every smooth x countall, every threshold of THRS (keyword
+        and positional, int and float): every stored pixel must carry the label of its maximum whatever the threshold
+        argument (the local-maximum variant has no background class); the variant that cuts at the threshold "like
+        cplabel" must violate AllLabelled (vacuity); harness/c13_scan.py.  One pool of the call histories holds values of
+        mixed sign as well.
 Harness-only instance families (the model only compares values and walks pointers, so it is covariant under order
 preserving value maps, shapes and coordinate offsets; expectations are the independent numpy / python definitions
 `definition`, `sparse_definition`, `c13_replay.expected_sparse`, `smooth16_definition`):
@@ -44,6 +54,7 @@ import numpy as np
 import common
 import c13_replay
 import c13_calls
+import c13_scan
 
 PROP = "C13"
 RACE_ID = "C13-walk-race"
@@ -1078,6 +1089,9 @@ def run(tier, replay=None):
                 "where the listing is closed under the ascent; sparse_smooth directly with exactly representable sums; "
                 "LocalMaxPar also with every delivered team 1..NT for the request NT, the dense sweep repeated in child "
                 "processes under OpenMP environments that deliver other teams than requested (normal and hooks build); "
+                "LocalMaxScan enumerates every scan <<frame, empty, mirrored frame>> of <= 3 stored pixels on 2x3 under 6 order "
+                "preserving value maps (negative / zero / positive stored values), replayed on SparseScan.lmlabel with the default "
+                "call, all smooth x countall and threshold arguments and 6 intensity dtypes (quick: a seeded 30% of the cases); "
                 "LocalMaxCalls enumerates every history of 3 (thorough 4) wrapper calls over 3 frames (two of equal nnz) and 2 "
                 "scans, each executed on seeded concrete pools with all results re-judged after every call. "
                 "non-trivial = image has an interior maximum; distinct = distinct image / (image, threads, repetition) / "
@@ -1190,6 +1204,7 @@ def run(tier, replay=None):
     timed("sparse_stress", sparse_stress, chk, tier, mods)
     timed("smooth_routes", smooth_routes, chk, tier, mods)
     timed("sparsescan_routes", sparsescan_routes, chk, tier)
+    timed("scan_arguments", scan_arguments, chk, tier, mods)
     timed("call_histories", call_histories, chk, tier, mods)
     timed("openmp_environments", openmp_environments, chk, tier, sel if tier == "quick" else [c for c in clean if rng.random() < 0.3])
     # (after the outcome-based families: a tree whose walk region does not run with the requested number of threads
@@ -1200,6 +1215,8 @@ def run(tier, replay=None):
         selftest(mods)
     else:
         selftest_calls(mods)
+    if tier == "thorough" and not chk.violations:
+        scan_arguments(chk, tier, mods, selftest_only=True)
     selftest_walk(chk, hook_recs)
     return chk.finish()
 
@@ -1218,6 +1235,73 @@ def sparsescan_routes(chk, tier):
     #  sparse_localmaxlabel with both work-buffer fills, sparse_smooth through both entry points - are C13's too)
     x03.bind_routes(chk, ("SparseScan.lmlabel", "cImageD11.sparse_localmaxlabel", "cImageD11.sparse_smooth",
                           "sparseframe.sparse_smooth"), runs, "c13ss")
+
+
+def scan_arguments(chk, tier, mods, selftest_only=False):
+    """LocalMaxScan.tla: SparseScan.lmlabel over its arguments (default call, threshold values, countall, smooth) and the
+    sign / zero classes of the stored values (order preserving maps of the grey levels), several intensity dtypes; the
+    variant that honours the threshold "like cplabel" must violate AllLabelled (vacuity); harness/c13_scan.py"""
+    r = common.run_tlc("LocalMaxScan", os.path.join(common.SPECS, "LocalMaxScan_cut.cfg"), workers=4, timeout=600)
+    chk.add_tlc("LocalMaxScan threshold honoured like cplabel (expected: AllLabelled violated)", r)
+    if "AllLabelled" not in r.violated:
+        raise common.MachineryError("LocalMaxScan: the variant that cuts at the threshold no longer violates AllLabelled (vacuity)")
+    cfgs = ["LocalMaxScan_q.cfg"] if tier == "quick" else ["LocalMaxScan_q.cfg", "LocalMaxScan_t.cfg", "LocalMaxScan_t2.cfg"]
+    defs = {"sparse_definition": sparse_definition, "smooth16_definition": smooth16_definition}
+    tot = {}
+    for kc, cfg in enumerate(cfgs):
+        res = common.run_tlc("LocalMaxScan", os.path.join(common.SPECS, cfg), workers=4, timeout=3000)
+        chk.add_tlc("LocalMaxScan arguments x value classes (%s)" % cfg, res)
+        if res.violated:
+            raise common.MachineryError("LocalMaxScan model violates %s\n%s" % (res.violated, res.stdout[-1500:]))
+        try:
+            cases = c13_scan.parse(res.printed)
+        except ValueError as e:
+            raise common.MachineryError("unparsable LocalMaxScan line: %s" % e)
+        if len(cases) != res.init_states or len(cases) < 1000:
+            raise common.MachineryError("LocalMaxScan emitted %d cases for %d initial states" % (len(cases), res.init_states))
+        d = os.path.join(common.scratch(), "scanargs_%d" % kc)
+        os.makedirs(d, exist_ok=True)
+        share = 0.3 if tier == "quick" else (1.0 if kc == 0 else 0.25)      # (seeded share of the emitted cases)
+        try:
+            if selftest_only:
+                # a perturbed expectation (one label of the specification changed) must be rejected on every judged case
+                def perturb(case):
+                    c = dict(case)
+                    for key in c13_scan.KEYS.values():
+                        if c[key]:
+                            g = [list(x) for x in c[key]]
+                            k = next((i for i, v in enumerate(g[0] + g[2]) if v > 0), None)
+                            if k is None:       # (the scan without any pixel)
+                                continue
+                            (g[0] if k < len(g[0]) else g[2])[k % len(g[0])] += 1
+                            c[key] = g
+                    return c
+
+                class Quiet(object):
+                    traces = 0
+
+                    def __init__(self):
+                        self.n = 0
+
+                    def case(self, *a, **k):
+                        pass
+
+                    def violation(self, *a):
+                        self.n += 1
+                q = Quiet()
+                st = c13_scan.replay(q, cases[::40], mods[1], defs, d, common.seed(), 1.0, perturb=perturb)
+                if st["failing_calls"] < 0.9 * st["calls_value_judged"] or st["calls_value_judged"] < 200:
+                    raise common.MachineryError("selftest: the scan-argument binding accepts perturbed labels: %s" % st)
+                return
+            st = c13_scan.replay(chk, cases, mods[1], defs, d, common.seed(), share)
+        except RuntimeError as e:
+            raise common.MachineryError(str(e))
+        merge_stats(tot, st)
+    chk.notes["scan_arguments"] = tot
+    if not chk.violations and (tot["default_calls_with_stored_values_le_0"] < 500 or tot["calls_with_an_exact_zero"] < 2000
+                               or tot["calls_with_negative_values"] < 5000 or tot["calls_smoothed_signal_le_0"] < 2000
+                               or len(tot["dtypes"]) < 6 or tot["calls_value_judged"] < 10000):
+        raise common.MachineryError("vacuity: scan-argument families not exercised: %s" % tot)
 
 
 def selftest_walk(chk, recs):
@@ -1269,6 +1353,9 @@ def run_replay(chk, mods, path):
     elif case.get("hooks"):
         hook_traces(chk, chk.tier)
         chk.sample({"replayed": "hook traces"})
+    elif "scan_case" in case:
+        scan_arguments(chk, chk.tier, mods)
+        chk.sample({"replayed": "SparseScan.lmlabel arguments x value classes"})
     elif "sparsescan_case" in case:
         sparsescan_routes(chk, chk.tier)
         chk.sample({"replayed": "SparseScan routes"})
